@@ -23,6 +23,50 @@ static BEAT: AtomicU64 = AtomicU64::new(0);
 static CUR_INDEX: AtomicU64 = AtomicU64::new(u64::MAX);
 static DONE: AtomicBool = AtomicBool::new(false);
 
+/// On a fatal signal (a broken tree may really corrupt memory) say which run was active
+/// before the process dies, so that the parent can report it instead of a bare crash.
+extern "C" fn fatal_signal(_sig: i32) {
+    let idx = CUR_INDEX.load(Ordering::SeqCst);
+    let mut buf = [0u8; 48];
+    let prefix = b"\n{\"crashed_index\":";
+    let mut n = 0;
+    for &c in prefix {
+        buf[n] = c;
+        n += 1;
+    }
+    let mut digits = [0u8; 20];
+    let mut k = 0;
+    let mut v = idx;
+    if v == 0 {
+        digits[0] = b'0';
+        k = 1;
+    }
+    while v > 0 {
+        digits[k] = b'0' + (v % 10) as u8;
+        v /= 10;
+        k += 1;
+    }
+    while k > 0 {
+        k -= 1;
+        buf[n] = digits[k];
+        n += 1;
+    }
+    buf[n] = b'}';
+    buf[n + 1] = b'\n';
+    unsafe {
+        libc::write(1, buf.as_ptr() as *const libc::c_void, n + 2);
+        libc::_exit(5);
+    }
+}
+
+fn install_signal_handlers() {
+    unsafe {
+        for s in [libc::SIGSEGV, libc::SIGBUS, libc::SIGABRT, libc::SIGILL, libc::SIGFPE] {
+            libc::signal(s, fatal_signal as usize);
+        }
+    }
+}
+
 fn start_watchdog() {
     let limit: u64 = std::env::var("VERIF_WATCHDOG_S").ok().and_then(|s| s.parse().ok()).unwrap_or(90);
     std::thread::spawn(move || {
@@ -281,6 +325,7 @@ pub fn run_worker(cfg: &WorkerCfg) -> J {
         findings: crate::findings::load(),
     };
     start_watchdog();
+    install_signal_handlers();
     exec::run_batch(&mut src);
     DONE.store(true, Ordering::SeqCst);
     let wall = src.start.elapsed().as_secs_f64();
